@@ -39,6 +39,8 @@ def writers():
     d["WFx"] = struct([field(1, "default", T("i32")), field(2, "default", T("i64")), field(3, "default", T("string")), field(4, "default", T("i16"))])
     d["WFxC"] = struct([field(1, "default", L(ST("WFx", False))), field(2, "default", M(T("string"), ST("WFx", False))),
                         field(3, "default", ST("WFx", False)), field(4, "default", SET(ST("WFx", False))), field(5, "default", M(T("i32"), ST("WFx", True)))])
+    # many small fields: readers that know every other one see many separate runs of unknown fields
+    d["WRuns"] = struct([field(i, "default", T("i32") if i % 4 else T("string")) for i in range(1, 13)])
     return d
 
 
@@ -110,6 +112,13 @@ def build_pairs(rng, quick=True):
     tfx_n = P.reader("WFx", wfx[:2], "fx-fixed-noholder")
     for mp in ({"WFx": tfx_u}, {"WFx": tfx_n}):
         P.reader("WFxC", W["WFxC"]["fields"], "fxc/" + mp["WFx"], unk=True, mapping=mp)
+    # runs of unknown fields separated by known ones (holder readers): fixed patterns plus random subsets
+    wr = W["WRuns"]["fields"]
+    masks = [{2, 4}, {2, 4, 6, 8, 10}, {3, 6, 9}, {1, 5, 9}, {2, 3, 6, 7}, {4}, {5, 6}, {1, 12}, {2, 5, 11}, {1, 3, 5, 7, 9, 11}]
+    for _ in range(4 if quick else 24):
+        masks.append({i for i in range(1, 13) if rng.random() < 0.4})
+    for k, mk in enumerate(masks):
+        P.reader("WRuns", [x for x in wr if x["id"] in mk], "runs-" + "_".join(map(str, sorted(mk))), unk=True)
     for wname in ("WScal", "WCont", "WOpt"):
         wf = W[wname]["fields"]
         inner_maps = [{"WIn": tin_same}] if wname != "WCont" else [
